@@ -4,36 +4,7 @@
 #include "vf_harness.h"
 VF_GHOSTS
 
-/* ---- ghost directory of the mandatory groups / parameters (set up by the harness = VALID_C3D) */
-struct Group *vf_dir_point, *vf_dir_analog;
-struct Parameter *vf_dir_p_used, *vf_dir_p_labels, *vf_dir_p_rate, *vf_dir_a_used, *vf_dir_a_rate;
-
-#define IS_LIT5(s, a, b, c, d, e) ((s)->size == 5 && (s)->data[0] == a && (s)->data[1] == b && (s)->data[2] == c && (s)->data[3] == d && (s)->data[4] == e)
-#define IS_POINT(s) IS_LIT5(s, 'P', 'O', 'I', 'N', 'T')
-#define IS_ANALOG(s) ((s)->size == 6 && (s)->data[0] == 'A' && (s)->data[1] == 'N' && (s)->data[2] == 'A' && (s)->data[3] == 'L' && (s)->data[4] == 'O' && (s)->data[5] == 'G')
-#define IS_USED(s) ((s)->size == 4 && (s)->data[0] == 'U' && (s)->data[1] == 'S' && (s)->data[2] == 'E' && (s)->data[3] == 'D')
-#define IS_RATE(s) ((s)->size == 4 && (s)->data[0] == 'R' && (s)->data[1] == 'A' && (s)->data[2] == 'T' && (s)->data[3] == 'E')
-#define IS_LABELS(s) ((s)->size == 6 && (s)->data[0] == 'L' && (s)->data[1] == 'A' && (s)->data[2] == 'B' && (s)->data[3] == 'E' && (s)->data[4] == 'L' && (s)->data[5] == 'S')
-
-/* Parameters::group(name): directory entry (first-match look-up is proved separately for the look-up functions) */
-const struct Group *contract_dir_Parameters__group__str(const struct Parameters *self, const vf_string *groupName)
-__CPROVER_requires(vf_exc == 0 && __CPROVER_r_ok(self, sizeof(*self)) && __CPROVER_r_ok(groupName, sizeof(*groupName)) &&
-                   __CPROVER_r_ok(groupName->data, groupName->size + 1) && (IS_POINT(groupName) || IS_ANALOG(groupName)))
-__CPROVER_assigns()
-__CPROVER_ensures(vf_exc == 0 && (IS_POINT(groupName) ? __CPROVER_pointer_equals(__CPROVER_return_value, vf_dir_point)
-                                                        : __CPROVER_pointer_equals(__CPROVER_return_value, vf_dir_analog)));
-
-const struct Parameter *contract_dir_Group__parameter__str(const struct Group *self, vf_string *parameterName)
-__CPROVER_requires(vf_exc == 0 && __CPROVER_r_ok(parameterName, sizeof(*parameterName)) && __CPROVER_r_ok(parameterName->data, parameterName->size + 1) &&
-                   ((self == vf_dir_point && (IS_USED(parameterName) || IS_RATE(parameterName) || IS_LABELS(parameterName))) ||
-                    (self == vf_dir_analog && (IS_USED(parameterName) || IS_RATE(parameterName)))))
-__CPROVER_assigns()
-__CPROVER_ensures(vf_exc == 0 &&
-   (self == vf_dir_point ? (IS_USED(parameterName) ? __CPROVER_pointer_equals(__CPROVER_return_value, vf_dir_p_used)
-                            : IS_RATE(parameterName) ? __CPROVER_pointer_equals(__CPROVER_return_value, vf_dir_p_rate)
-                                                     : __CPROVER_pointer_equals(__CPROVER_return_value, vf_dir_p_labels))
-                         : (IS_USED(parameterName) ? __CPROVER_pointer_equals(__CPROVER_return_value, vf_dir_a_used)
-                                                   : __CPROVER_pointer_equals(__CPROVER_return_value, vf_dir_a_rate))));
+#include "dir_contracts.h"
 
 /* Points::pointIdx(label): found or invalid_argument; a miss is recorded */
 _Bool vf_label_missing;
@@ -91,23 +62,6 @@ __CPROVER_assigns(vf_exc, vf_label_missing, vf_step, vf_rec_frame, vf_rec_idx)
 __CPROVER_ensures(vf_exc == 0 ==> (vf_step == 2 && vf_rec_frame == f && vf_rec_idx == idx))
 /*@ C10 : c3d_frame.refused-before-any-mutation */ __CPROVER_ensures(vf_exc != 0 ==> vf_step == 0);
 
-static struct Parameter *mk_param_int1(void)
-{
-  struct Parameter *p = (struct Parameter *)vf_alloc(sizeof(*p));
-  p->_data_type = 2;
-  VF_MK_VEC(p->_param_data_int, int);
-  __CPROVER_assume(p->_param_data_int.size >= 1);
-  return p;
-}
-static struct Parameter *mk_param_float1(void)
-{
-  struct Parameter *p = (struct Parameter *)vf_alloc(sizeof(*p));
-  p->_data_type = 4;
-  VF_MK_VEC(p->_param_data_float, float);
-  __CPROVER_assume(p->_param_data_float.size >= 1);
-  return p;
-}
-
 void h_c3d_frame(void)
 {
   struct c3d *self = (struct c3d *)vf_alloc(sizeof(*self));
@@ -116,10 +70,11 @@ void h_c3d_frame(void)
   self->_data = (struct Data *)vf_alloc(sizeof(struct Data));
   vf_dir_point = (struct Group *)vf_alloc(sizeof(struct Group));
   vf_dir_analog = (struct Group *)vf_alloc(sizeof(struct Group));
-  vf_dir_p_used = mk_param_int1();
-  vf_dir_a_used = mk_param_int1();
-  vf_dir_p_rate = mk_param_float1();
-  vf_dir_a_rate = mk_param_float1();
+  vf_dir_p_used = vf_mk_param_int1();
+  vf_dir_a_used = vf_mk_param_int1();
+  vf_dir_p_rate = vf_mk_param_float1();
+  vf_dir_a_rate = vf_mk_param_float1();
+  vf_dir_p_frames = vf_mk_param_int1();
   vf_dir_p_labels = (struct Parameter *)vf_alloc(sizeof(struct Parameter));
   vf_dir_p_labels->_data_type = -1;
   /* at most two labels: the label loop is unwound (bounded part of this unit) */
